@@ -104,5 +104,15 @@ Theorem C17_routed_iff_specified :
 Proof. exact oci_spec_semantics. Qed.
 Print Assumptions C17_routed_iff_specified.
 
+(* ---- the executable URL decomposition that judges the REAL example (Spec/OciSpec.v readings, used by check_oci)
+        finds exactly the declarative shapes, for every valid UTF-8 URL (Proofs/OciReadP.v) ---- *)
+From WF Require Import Base.Utf8 Proofs.OciReadP.
+Print readings.
+Theorem C17_oracle_reads_urls_as_specified :
+  forall url sh n last,
+    utf8_valid url = true -> (In (sh, n, last) (readings url) <-> exists b, url_shape sh n last b url).
+Proof. exact readings_spec. Qed.
+Print Assumptions C17_oracle_reads_urls_as_specified.
+
 (* is end-5 registered?  (false on the pinned example: known finding K1) *)
 Eval vm_compute in end5_present.
